@@ -73,8 +73,8 @@ func genStream(t *rapid.T, label string, max int) [][]byte {
 
 func TestC07(t *testing.T) {
 	rec := ev.Get("C07")
-	rec.Rule("first hello accepted (sealed, C03 generator) or passed through, then a client record stream (types 20-23; lengths weighted on 0 (application data), 1, 16383, 16384 and 16385..16640 for type 23), a backend stream (optional ServerHello, then records) split at drawn points over Write calls, a chunk schedule for transport reads (1 byte .. whole flight), caller buffer sizes 1..70000, and optionally a transport cut (EOF or error) at a drawn offset after the first record; in an eighth of the cases the backend's first record is a HelloRetryRequest and the client stream continues with (change_cipher_spec and) a well-formed retried hello, expected as its reconstructed inner hello followed by exactly the rest; in a third of the cases the reads of a second, unrelated accepted connection are interleaved (connections share nothing). Oracle: concat(Read) == rewritten hello || rest up to the cut, error only after all bytes; transport writes are a prefix of backend writes with less than one complete record withheld; Write returns (len,nil). distinct = (schedule hash, cut, record lengths); non-trivial = a record straddles two chunks or two writes")
-	rec.Mandatory("chunks_1byte", "cut_in_header", "cut_in_body", "record_len0", "record_gt16384", "accepted", "passthrough", "backend_split", "nontrivial", "neighbour_conn", "hrr_then_retried_hello")
+	rec.Rule("first hello accepted (sealed, C03 generator) or passed through, then a client record stream (types 20-23; lengths weighted on 0 (application data), 1, 16383, 16384 and 16385..16640 for type 23), a backend stream (optional ServerHello, then records) split at drawn points over Write calls, a chunk schedule for transport reads (1 byte .. whole flight), caller buffer sizes 1..70000, and optionally a transport cut (EOF or error) at a drawn offset after the first record; in an eighth of the cases the backend's first record is a HelloRetryRequest and the client stream continues with (change_cipher_spec and) a well-formed retried hello, expected as its reconstructed inner hello followed by exactly the rest; in a sixth of the cases the transport's write side fails at a drawn offset (the error must surface, with only a prefix of the backend's bytes delivered); in a third of the cases the reads of a second, unrelated accepted connection are interleaved (connections share nothing). Oracle: concat(Read) == rewritten hello || rest up to the cut, error only after all bytes; transport writes are a prefix of backend writes with less than one complete record withheld; Write returns (len,nil). distinct = (schedule hash, cut, record lengths); non-trivial = a record straddles two chunks or two writes")
+	rec.Mandatory("chunks_1byte", "cut_in_header", "cut_in_body", "record_len0", "record_gt16384", "accepted", "passthrough", "backend_split", "nontrivial", "neighbour_conn", "hrr_then_retried_hello", "transport_write_fails")
 	rapid.Check(t, func(t *rapid.T) {
 		accepted := rapid.Bool().Draw(t, "accepted")
 		var first, wantFirst []byte
@@ -201,6 +201,14 @@ func TestC07(t *testing.T) {
 		}
 		// schedules
 		tr := wire.New(stream, endErr)
+		// optionally the transport's write side fails at a drawn offset of the backend stream
+		wfail := -1
+		if len(bstream) > 0 && !hrrMode && rapid.IntRange(0, 5).Draw(t, "write_fails") == 0 {
+			wfail = uniform(t, "write_fail_at", len(bstream))
+			tr.WriteFailAt = wfail
+			cl = append(cl, "transport_write_fails")
+		}
+		wfailed := false
 		chunkMode := rapid.IntRange(0, 3).Draw(t, "chunk_mode")
 		switch chunkMode {
 		case 0:
@@ -300,6 +308,18 @@ func TestC07(t *testing.T) {
 					scratch[:cap(scratch)][i] = 0xee
 				}
 				ops = append(ops, fmt.Sprintf("w%d", n))
+				if wfail >= 0 && e != nil && !isPanic(e) {
+					// the transport failed: the error surfaces, nothing beyond the failure offset
+					// (and nothing but the backend's own bytes) reached the client; the stream ends here
+					w, _ := tr.Snapshot()
+					if !errors.Is(e, wire.ErrInjected) || len(w) > wfail || !bytes.HasPrefix(bstream, w) || bpos+n <= wfail {
+						rp["ops"] = ops
+						ev.Violation(t, "C07", rp, "transport write fails at offset %d: Write(%d bytes at backend offset %d) returned (%d, %v) with %d bytes delivered", wfail, n, bpos, k, e, len(w))
+					}
+					wfailed = true
+					bstream = bstream[:bpos]
+					continue
+				}
 				if e != nil || k != n {
 					rp["ops"] = ops
 					ev.Violation(t, "C07", rp, "Write(%d bytes at backend offset %d) returned (%d, %v)", n, bpos, k, e)
@@ -358,7 +378,7 @@ func TestC07(t *testing.T) {
 			}
 		}
 		w, _ := tr.Snapshot()
-		if !bytes.Equal(w, bstream) {
+		if !wfailed && !bytes.Equal(w, bstream) {
 			rp["ops"] = ops
 			ev.Violation(t, "C07", rp, "after the backend stream ended the client has %d of %d bytes", len(w), len(bstream))
 		}
